@@ -135,19 +135,7 @@ impl Writer {
                                         if j < k0 { assert(l0.contains(x) || r0.contains(x)); }
                                     }
                                 }
-//@spec
-    requires
-        tree(frozen_reader.trees.snap(), current_node),
-        to_insert@.disjoint(titems(frozen_reader.trees.snap(), current_node)),
-        to_insert@.subset_of(frozen_reader.leafs.ids()),
-        cap_of(opt, self.dimensions) >= 1,
-        tmp_untouched(old(tmp_nodes).tv(), tnodes(frozen_reader.trees.snap(), current_node)),
-        tmp_inv(frozen_reader.trees.snap(), frozen_reader.concurrent_node_ids.used0(), old(tmp_nodes).tv(), old(tmp_nodes).allocated()),
-    ensures
-        r matches Ok(new) ==> ins_post(frozen_reader.trees.snap(), frozen_reader.concurrent_node_ids.used0(), current_node,
-            old(tmp_nodes).tv(), final(tmp_nodes).tv(), old(tmp_nodes).allocated(), final(tmp_nodes).allocated(), to_insert@,
-            cap_of(opt, self.dimensions), old(large_descendants)@, final(large_descendants)@, new, frozen_reader.leafs),
-        r matches Err(e) ==> build_err(e),
+//@specfile lib/contracts/insert_items_in_file.spec
 //@end
 }
 
